@@ -41,6 +41,13 @@ def run(report, db, tier):
     r4(report, db, cg, M, S)
     r5(report, db, cg, M, S)
     r6(report, db, cg, M, S)
+    # reuse from inside a status handler: the handler must find the
+    # connection closed (clause shared with C09's status arms)
+    from .c09 import plain_status
+    from ..protocol import Proto
+    from .. import shared
+    plain_status(report, db, shared.summariser(db, cg), M, Proto(db),
+                 rule_id='R16.7', only=('status:handler-before-close',))
 
 
 def sy(n):
